@@ -4,9 +4,11 @@
 #   run.sh campaign <ID>               bounded campaigns of the targets that carry <ID>'s oracle; merges statistics into evidence/<ID>.json
 #   run.sh replay <ID> <artifact>      run the target the artefact belongs to on that input
 set -u
-cd /verif/fuzz || exit 2
+ROOT="$(cd "$(dirname "$0")/.." && pwd)"
+export VERIF_ROOT="$ROOT"
+cd "$ROOT/fuzz" || exit 2
 export CARGO_NET_OFFLINE=true
-BIN=/verif/target/x86_64-unknown-linux-gnu/release
+BIN=$ROOT/target/x86_64-unknown-linux-gnu/release
 targets_for() {
   case "$1" in
     C03) echo "keyfile_mut chunks_raw" ;;
@@ -20,16 +22,16 @@ targets_for() {
   esac
 }
 build() {
-  exec 8>/verif/.fuzzbuild.lock; flock 8
-  local h; h=$( (cd /repo && find src Cargo.toml Cargo.lock -type f \( -name '*.rs' -o -name '*.toml' -o -name '*.lock' \) -print0 | sort -z | xargs -0 sha256sum; sha256sum /verif/fuzz/Cargo.toml /verif/fuzz/src/*.rs /verif/fuzz/fuzz_targets/*.rs /verif/crates/kverif/src/*.rs /verif/crates/kspec/src/*.rs) | sha256sum | cut -d' ' -f1)
-  if [ "$(cat /verif/target/fuzz.stamp 2>/dev/null)" != "$h" ]; then
+  exec 8>$ROOT/.fuzzbuild.lock; flock 8
+  local h; h=$( (cd /repo && find src Cargo.toml Cargo.lock -type f \( -name '*.rs' -o -name '*.toml' -o -name '*.lock' \) -print0 | sort -z | xargs -0 sha256sum; sha256sum $ROOT/fuzz/Cargo.toml $ROOT/fuzz/src/*.rs $ROOT/fuzz/fuzz_targets/*.rs $ROOT/crates/kverif/src/*.rs $ROOT/crates/kspec/src/*.rs) | sha256sum | cut -d' ' -f1)
+  if [ "$(cat $ROOT/target/fuzz.stamp 2>/dev/null)" != "$h" ]; then
     # cargo decides staleness by mtime; force the path packages to rebuild when contents changed
-    (cd /verif/fuzz && cargo clean --release --target x86_64-unknown-linux-gnu -p kestrel-crypto -p kverif-fuzz >/dev/null 2>&1)
-    rm -f /verif/target/fuzz.stamp
+    (cd $ROOT/fuzz && cargo clean --release --target x86_64-unknown-linux-gnu -p kestrel-crypto -p kverif-fuzz >/dev/null 2>&1)
+    rm -f $ROOT/target/fuzz.stamp
   fi
-  cargo +nightly fuzz build >/verif/target/fuzz-build.log 2>&1
+  cargo +nightly fuzz build >$ROOT/target/fuzz-build.log 2>&1
   local rc=$?
-  [ $rc -eq 0 ] && echo "$h" > /verif/target/fuzz.stamp
+  [ $rc -eq 0 ] && echo "$h" > $ROOT/target/fuzz.stamp
   flock -u 8
   return $rc
 }
@@ -39,37 +41,37 @@ case "${1:-}" in
     ID="$2"; FILE="$3"
     T=$(basename "$(dirname "$FILE")")
     [ -x "$BIN/$T" ] || build || { echo "fuzz: build failed" >&2; exit 2; }
-    KFUZZ_PROP="$ID" "$BIN/$T" "$FILE" >/verif/target/fuzz-replay.log 2>&1
-    if [ $? -ne 0 ]; then grep -E "panicked|ERROR|SUMMARY" /verif/target/fuzz-replay.log | head -5; echo "VIOLATION property=$ID replay=$FILE"; exit 1; fi
+    KFUZZ_PROP="$ID" "$BIN/$T" "$FILE" >$ROOT/target/fuzz-replay.log 2>&1
+    if [ $? -ne 0 ]; then grep -E "panicked|ERROR|SUMMARY" $ROOT/target/fuzz-replay.log | head -5; echo "VIOLATION property=$ID replay=$FILE"; exit 1; fi
     echo "replay: property $ID held on $FILE"; exit 0 ;;
   campaign)
     ID="$2"; TS=$(targets_for "$ID")
     [ -n "$TS" ] || exit 0
     if ! build; then
-      echo "fuzz: skipped (build failed, see /verif/target/fuzz-build.log)" >&2
-      python3 /verif/fuzz/merge_evidence.py "$ID" skipped "cargo +nightly fuzz build failed"; exit 0
+      echo "fuzz: skipped (build failed, see $ROOT/target/fuzz-build.log)" >&2
+      python3 $ROOT/fuzz/merge_evidence.py "$ID" skipped "cargo +nightly fuzz build failed"; exit 0
     fi
     RUNS="${VERIF_FUZZ_RUNS:-1500000}"; SEED="${VERIF_SEED:-1}"; [ "$SEED" = "0" ] && SEED=1
     rc=0; pids=()
     for T in $TS; do
-      W=/verif/fuzz/corpus-work/$ID-$T; A=/verif/fuzz/artifacts/$T; rm -rf "$W"; mkdir -p "$W" "$A"
+      W=$ROOT/fuzz/corpus-work/$ID-$T; A=$ROOT/fuzz/artifacts/$T; rm -rf "$W"; mkdir -p "$W" "$A"
       R=$RUNS; case "$T" in scrypt_ffi) R=$((RUNS/10)) ;; keyfile_mut) R=$((RUNS/2)) ;; esac
-      EXTRA=""; [ -d "/verif/replays/$ID/$T" ] && EXTRA="/verif/replays/$ID/$T"
-      ( KFUZZ_PROP="$ID" "$BIN/$T" "$W" "/verif/corpus/$T" $EXTRA -runs="$R" -seed="$SEED" -max_len=4096 -len_control=0 -timeout=30 -rss_limit_mb=4096 -artifact_prefix="$A/" -print_final_stats=1 >"/verif/target/fuzz-$ID-$T.log" 2>&1; echo $? >"/verif/target/fuzz-$ID-$T.rc" ) &
+      EXTRA=""; [ -d "$ROOT/replays/$ID/$T" ] && EXTRA="$ROOT/replays/$ID/$T"
+      ( KFUZZ_PROP="$ID" "$BIN/$T" "$W" "$ROOT/corpus/$T" $EXTRA -runs="$R" -seed="$SEED" -max_len=4096 -len_control=0 -timeout=30 -rss_limit_mb=4096 -artifact_prefix="$A/" -print_final_stats=1 >"$ROOT/target/fuzz-$ID-$T.log" 2>&1; echo $? >"$ROOT/target/fuzz-$ID-$T.rc" ) &
       pids+=($!)
     done
     wait "${pids[@]}"
     for T in $TS; do
-      r=$(cat "/verif/target/fuzz-$ID-$T.rc" 2>/dev/null || echo 2)
+      r=$(cat "$ROOT/target/fuzz-$ID-$T.rc" 2>/dev/null || echo 2)
       if [ "$r" != "0" ]; then
-        art=$(grep -oE "Test unit written to \S+" "/verif/target/fuzz-$ID-$T.log" | tail -1 | awk '{print $NF}')
+        art=$(grep -oE "Test unit written to \S+" "$ROOT/target/fuzz-$ID-$T.log" | tail -1 | awk '{print $NF}')
         if [ -n "$art" ] && [ -f "$art" ]; then
-          if grep -qE "timeout|out-of-memory" "/verif/target/fuzz-$ID-$T.log"; then echo "fuzz: $T timed out / exceeded memory on $art: inconclusive" >&2; [ $rc -eq 0 ] && rc=2
-          else mkdir -p "/verif/replays/$ID/$T"; cp "$art" "/verif/replays/$ID/$T/"; grep -E "panicked" "/verif/target/fuzz-$ID-$T.log" | head -2; echo "VIOLATION property=$ID replay=/verif/replays/$ID/$T/$(basename "$art")"; rc=1; fi
+          if grep -qE "timeout|out-of-memory" "$ROOT/target/fuzz-$ID-$T.log"; then echo "fuzz: $T timed out / exceeded memory on $art: inconclusive" >&2; [ $rc -eq 0 ] && rc=2
+          else mkdir -p "$ROOT/replays/$ID/$T"; cp "$art" "$ROOT/replays/$ID/$T/"; grep -E "panicked" "$ROOT/target/fuzz-$ID-$T.log" | head -2; echo "VIOLATION property=$ID replay=$ROOT/replays/$ID/$T/$(basename "$art")"; rc=1; fi
         else echo "fuzz: $T ended with status $r without an artefact: inconclusive" >&2; [ $rc -eq 0 ] && rc=2; fi
       fi
     done
-    python3 /verif/fuzz/merge_evidence.py "$ID" ran $TS
+    python3 $ROOT/fuzz/merge_evidence.py "$ID" ran $TS
     exit $rc ;;
   *) echo "usage: run.sh build | campaign <ID> | replay <ID> <file>" >&2; exit 2 ;;
 esac
